@@ -53,6 +53,8 @@ def inner_string():
 OTHER_INNERS = {
     "vec": Inner("Vec<i32>", "Vec<i32>", "other", carrier="list",
                  caps=frozenset(ALL_CAPS - {"Copy", "Display", "FromStr"})),
+    "bytes": Inner("Vec<u8>", "Vec<u8>", "other", carrier="blist",
+                   caps=frozenset(ALL_CAPS - {"Copy", "Display", "FromStr"})),
     "opt": Inner("Option<i32>", "Option<i32>", "other", carrier="opt",
                  caps=frozenset(ALL_CAPS - {"Display", "FromStr"})),
     "arr": Inner("[i32; 3]", "[i32; 3]", "other", carrier="arr3",
